@@ -304,5 +304,134 @@ func TestC09(t *testing.T) {
 		})
 	}
 	t.Run("model-split", c09Model.Run)
+	t.Run("fault-split", c09Faults.Run)
 	t.Run("shared-piece", c09Shared.Run)
 }
+
+// c09Faults: the second sentence of the property.  A model document with one planted fault is rendered twice with the same
+// layout, unsplit and cut into INCLUDE files (ragged cuts included).  The renderer knows where every directive is in both
+// renderings, so "the corresponding line of the file that now holds the directive" is computed, not guessed: the error of
+// the unsplit document lies d lines below the keyword of some directive; the split project must report the same message d
+// lines below that directive's keyword in whatever file it lives now.
+type c09PosRow struct {
+	ID   int    `json:"id"`
+	File string `json:"file"`
+	Line int    `json:"line"`
+}
+
+func c09PosTable(rd *mdl.Rendered) []any {
+	var rows []any
+	for id, p := range rd.Pos {
+		rows = append(rows, map[string]any{"id": id, "file": p.File, "line": p.Line})
+	}
+	sort.Slice(rows, func(i, j int) bool { return asInt(rows[i].(map[string]any)["id"]) < asInt(rows[j].(map[string]any)["id"]) })
+	return rows
+}
+
+func c09Rows(x any) []c09PosRow {
+	var out []c09PosRow
+	rows, _ := x.([]any)
+	for _, r := range rows {
+		m, _ := r.(map[string]any)
+		f, _ := m["file"].(string)
+		out = append(out, c09PosRow{ID: asInt(m["id"]), File: f, Line: asInt(m["line"])})
+	}
+	return out
+}
+
+func c09FaultOracle(c *vlib.Case) *vlib.Violation {
+	b1 := vlib.Build(c.Project)
+	defer b1.Close()
+	if !b1.Out.Err() {
+		return nil // the planted fault is not one the unsplit document is rejected for (or C01's business)
+	}
+	b2 := vlib.Build(c.Project2)
+	defer b2.Close()
+	if b2.Out.Crashed() {
+		return vlib.V("c09:crash:"+b2.Out.Sig, "the split form of a rejected document crashes: %s", b2.Out.Panic)
+	}
+	if b2.Out.OK() {
+		return vlib.V("c09:rejected-document-accepted-after-split:"+errClass(b1.Out.Msg), "unsplit: %s; the split project is accepted", b1.Out.Brief())
+	}
+	if c.Params["loose"] == true {
+		// a missing body: the scanner notices it wherever it gives up reading what follows, and what follows ends earlier
+		// in a piece - only the rejection is required (as in C03)
+		return nil
+	}
+	if errClass(b1.Out.Msg) != errClass(b2.Out.Msg) {
+		return vlib.V("c09:message-changes-after-split:"+errClass(b1.Out.Msg), "unsplit: %s\n split:  %s", b1.Out.Brief(), b2.Out.Brief())
+	}
+	src := c.Project.Files[b1.Out.File]
+	if b1.Out.Index >= len(src) {
+		return nil // at the end of the file: the end of the root file is not the end of the piece
+	}
+	base, split := c09Rows(c.Params["pos_base"]), c09Rows(c.Params["pos_split"])
+	var at *c09PosRow
+	for i := range base {
+		r := &base[i]
+		if r.File == b1.Out.File && r.Line <= b1.Out.Line && (at == nil || r.Line >= at.Line) {
+			at = r
+		}
+	}
+	if at == nil {
+		return nil
+	}
+	for _, r := range split {
+		if r.ID == at.ID {
+			wantLine := r.Line + (b1.Out.Line - at.Line)
+			if b2.Out.File != r.File || b2.Out.Line != wantLine {
+				return vlib.V("c09:error-does-not-follow-the-directive:"+errClass(b1.Out.Msg), "unsplit: %s (directive #%d at %s:%d)\n split:  %s, expected at %s:%d", b1.Out.Brief(), at.ID, at.File, at.Line, b2.Out.Brief(), r.File, wantLine)
+			}
+			return nil
+		}
+	}
+	return nil
+}
+
+var c09Faults = &vlib.Check{
+	Prop: "C09", Name: "fault-split", Quick: 2000, Thorough: 200000,
+	Oracle: c09FaultOracle,
+	Gen: func(t *rapid.T) *vlib.Case {
+		r := vlib.RapidRnd{T: t}
+		doc := mdl.Gen(r)
+		tree := mdl.BuildTree(doc, mdl.TreeOpts{R: r})
+		var ft []*mdl.Dir
+		var f *mdl.Fault
+		if vlib.Chance(r, 1, 3) {
+			ft, f = mdl.InjectScan(r, tree, r.Intn(len(mdl.ScanInjectors)))
+		} else {
+			ft, f = mdl.Inject(r, tree, r.Intn(len(mdl.Injectors)))
+		}
+		if f == nil || strings.HasPrefix(f.Class, "jsight:") {
+			return nil // (JSIGHT lives in the root file)
+		}
+		lay := mdl.RandomLayout(r)
+		base := mdl.Render(ft, lay)
+		st, cuts, _, ragged := mdl.SplitRagged(r, ft, 1+r.Intn(4), 1+r.Intn(3), true)
+		if cuts == 0 {
+			return nil
+		}
+		sp := mdl.Render(st, lay)
+		where := "fault-in-includer"
+		if p, ok := sp.Pos[f.DirID]; ok && p.File != sp.Root {
+			where = "fault-in-included-file"
+		}
+		return &vlib.Case{Project: renderedProject(base), Project2: renderedProject(sp), Params: map[string]any{
+			"class": f.Class, "loose": f.NextLine, "cuts": cuts, "ragged": ragged, "where": where,
+			"pos_base": c09PosTable(base), "pos_split": c09PosTable(sp)}}
+	},
+	Classify: func(c *vlib.Case) (bool, []string) {
+		cls := []string{fmt.Sprint(c.Params["where"]), "class:" + strings.SplitN(fmt.Sprint(c.Params["class"]), ":", 2)[0]}
+		b := vlib.Build(c.Project)
+		defer b.Close()
+		if !b.Out.Err() {
+			return false, append(cls, "unsplit-not-rejected")
+		}
+		return true, cls
+	},
+	SampleOf: func(c *vlib.Case) any {
+		return map[string]any{"class": c.Params["class"], "where": c.Params["where"], "cuts": c.Params["cuts"], "files": len(c.Project2.Files)}
+	},
+}
+
+func init() { vlib.Register(c09Faults) }
